@@ -267,9 +267,15 @@ impl Callable for If {
             bail!("Condition type {:?} is not a Boolean", cond);
         }
         if yes != no {
-            // the bindings of two `let`s are different objects: compare what they stand for
-            let same = matches!((&yes, &no), (Type::NativeObject(a), Type::NativeObject(b))
-                    if a.as_evaluatable().is_some() && b.as_evaluatable().is_some())
+            // the bindings of two `let`s are different objects: compare what they stand for. Only for objects
+            // that can be nothing but evaluated - the result keeps the type of the first branch, and members or
+            // elements of that one must not be looked up in the other
+            fn only_evaluatable(t: &Type) -> bool {
+                matches!(t, Type::NativeObject(o) if o.as_evaluatable().is_some()
+                    && o.as_accessible().is_none() && o.as_indexable().is_none() && o.as_callable().is_none())
+            }
+            let same = only_evaluatable(&yes)
+                && only_evaluatable(&no)
                 && args[1].real_type_of(ctx.clone())? == args[2].real_type_of(ctx)?;
             if !same {
                 bail!("Condition return type must be same: {:?} {:?}", yes, no);
